@@ -3,34 +3,41 @@ import TrackVerif.LT.MarshalInv
 namespace TrackVerif.LT
 open TrackVerif TrackVerif.Gen TrackVerif.LT.Xml
 
-inductive RCase (s : Schema) (f : Nat) (om : Bool) (ty : LtType) (v : V) (q : V) : Prop
-  | omitted : om = true → isEmptyValue (kindOf s 8 ty) v = true → q = zeroOf s 8 ty → RCase s f om ty v q
+inductive RCase (s : Schema) (f : Nat) (om : Bool) (ty : LtType) (cur v : V) (q : V) : Prop
+  | omitted : om = true → isEmptyValue (kindOf s 8 ty) v = true → q = cur → RCase s f om ty cur v q
   | ptrNil (t' : LtType) : (om && isEmptyValue (kindOf s 8 ty) v) = false → kindOf s 8 ty = .ptr t' → v = .nil →
-      q = .nil → RCase s f om ty v q
+      q = cur → RCase s f om ty cur v q
   | ptr (t' : LtType) (v' q' : V) : (om && isEmptyValue (kindOf s 8 ty) v) = false → kindOf s 8 ty = .ptr t' →
-      v = .ptr v' → oneElement s t' = true → rtOf s f false t' v' = some q' → q = .ptr q' → RCase s f om ty v q
+      v = .ptr v' → oneElement s t' = true →
+      rtOf s f false t' (ptrTarget s t' cur) v' = some q' → q = .ptr q' →
+      RCase s f om ty cur v q
   | custom (n : String) : (om && isEmptyValue (kindOf s 8 ty) v) = false → (∀ t', kindOf s 8 ty ≠ .ptr t') →
-      customM s ty = some n → leafRT s ty v = some q → RCase s f om ty v q
+      customM s ty = some n → leafRT s ty cur v = some q → RCase s f om ty cur v q
   | slice (t' : LtType) (vs qs : List V) : (om && isEmptyValue (kindOf s 8 ty) v) = false → customM s ty = none →
       kindOf s 8 ty = .slice t' → v = .list vs → vs.any (fun e => om && isEmptyValue (kindOf s 8 t') e) = false →
-      oneElement s t' = true → AllRel (fun e r => rtOf s f false t' e = some r) vs qs → q = .list qs →
-      RCase s f om ty v q
-  | struct (n : String) (fs qs : List V) (fields : List LtField) : (om && isEmptyValue (kindOf s 8 ty) v) = false →
-      customM s ty = none → kindOf s 8 ty = .structT n → v = .struct fs → s.fieldsOf n = some fields →
-      (dataFields fields).length = fs.length →
-      AllRel (fun p r => rtField s (rtOf s f) p = some r) ((dataFields fields).zip fs) qs → q = .struct qs →
-      RCase s f om ty v q
+      oneElement s t' = true → AllRel (fun e r => rtOf s f false t' (zeroOf s 8 t') e = some r) vs qs →
+      q = appendTo cur qs → RCase s f om ty cur v q
+  | struct (n : String) (fs cs qs : List V) (fields : List LtField) :
+      (om && isEmptyValue (kindOf s 8 ty) v) = false →
+      customM s ty = none → kindOf s 8 ty = .structT n → v = .struct fs → cur = .struct cs →
+      s.fieldsOf n = some fields →
+      (dataFields fields).length = fs.length → (dataFields fields).length = cs.length →
+      AllRel (fun p r => rtField s (rtOf s f) p = some r) ((dataFields fields).zip (cs.zip fs)) qs → q = .struct qs →
+      RCase s f om ty cur v q
   | simple : (om && isEmptyValue (kindOf s 8 ty) v) = false → customM s ty = none →
-      isSimple (kindOf s 8 ty) = true → leafRT s ty v = some q → RCase s f om ty v q
+      isSimple (kindOf s 8 ty) = true → leafRT s ty cur v = some q → RCase s f om ty cur v q
 
-theorem rtOf_succ (s : Schema) (f : Nat) (om : Bool) (ty : LtType) (v : V) :
-    rtOf s (f + 1) om ty v =
-      if om && isEmptyValue (kindOf s 8 ty) v then some (zeroOf s 8 ty)
+theorem rtOf_succ (s : Schema) (f : Nat) (om : Bool) (ty : LtType) (cur v : V) :
+    rtOf s (f + 1) om ty cur v =
+      if om && isEmptyValue (kindOf s 8 ty) v then some cur
       else match kindOf s 8 ty, v with
-      | .ptr _, .nil => some .nil
-      | .ptr t', .ptr v' => if oneElement s t' then (rtOf s f false t' v').map V.ptr else none
+      | .ptr _, .nil => some cur
+      | .ptr t', .ptr v' =>
+        if oneElement s t' then
+          (rtOf s f false t' (ptrTarget s t' cur) v').map V.ptr
+        else none
       | .ptr _, _ => none
-      | k, v => rtRest s (rtOf s f) om ty k v := by
+      | k, v => rtRest s (rtOf s f) om ty k cur v := by
   conv => lhs; unfold rtOf
   split
   · rfl
@@ -50,9 +57,9 @@ theorem optionOfAll_map {α β : Type} (g : α → Option β) (l : List α) (rs 
       subst h2
       exact AllRel.cons hg (ih rs' h1)
 
-theorem rtRest_inv (s : Schema) (f : Nat) (om : Bool) (ty : LtType) (v q : V)
+theorem rtRest_inv (s : Schema) (f : Nat) (om : Bool) (ty : LtType) (cur v q : V)
     (hom : (om && isEmptyValue (kindOf s 8 ty) v) = false) (hnp : ∀ t', kindOf s 8 ty ≠ .ptr t')
-    (h : rtRest s (rtOf s f) om ty (kindOf s 8 ty) v = some q) : RCase s f om ty v q := by
+    (h : rtRest s (rtOf s f) om ty (kindOf s 8 ty) cur v = some q) : RCase s f om ty cur v q := by
   unfold rtRest at h
   cases hc : customM s ty with
   | some n =>
@@ -82,13 +89,20 @@ theorem rtRest_inv (s : Schema) (f : Nat) (om : Bool) (ty : LtType) (v q : V)
         cases hf : s.fieldsOf n with
         | none => simp [hf] at h
         | some fields =>
-          simp only [hf] at h
-          by_cases hl : (dataFields fields).length ≠ fs.length
-          · simp [hl] at h
-          · simp only [hl, if_false, Option.map_eq_some_iff] at h
-            obtain ⟨qs, h1, h2⟩ := h
-            exact RCase.struct n fs qs fields (by rw [hk]; exact hom) hc hk rfl hf (by simpa using hl)
-              (optionOfAll_map _ _ qs h1) h2.symm
+          cases cur with
+          | struct cs =>
+            simp only [hf] at h
+            by_cases hl : (dataFields fields).length ≠ fs.length ∨ (dataFields fields).length ≠ cs.length
+            · simp [hl] at h
+            · simp only [hl, if_false, Option.map_eq_some_iff] at h
+              obtain ⟨qs, h1, h2⟩ := h
+              have hl' : (dataFields fields).length = fs.length ∧ (dataFields fields).length = cs.length := by
+                constructor
+                · exact Decidable.byContradiction fun e => hl (Or.inl e)
+                · exact Decidable.byContradiction fun e => hl (Or.inr e)
+              exact RCase.struct n fs cs qs fields (by rw [hk]; exact hom) hc hk rfl rfl hf hl'.1 hl'.2
+                (optionOfAll_map _ _ qs h1) h2.symm
+          | _ => simp [hf] at h
       | _ => simp [isSimple] at h
     | int | float | bool | string =>
       all_goals (
@@ -99,8 +113,8 @@ theorem rtRest_inv (s : Schema) (f : Nat) (om : Bool) (ty : LtType) (v q : V)
     | time | unit | unknown =>
       all_goals (cases v <;> simp [isSimple] at h)
 
-theorem rtOf_inv (s : Schema) (f : Nat) (om : Bool) (ty : LtType) (v q : V)
-    (h : rtOf s (f + 1) om ty v = some q) : RCase s f om ty v q := by
+theorem rtOf_inv (s : Schema) (f : Nat) (om : Bool) (ty : LtType) (cur v q : V)
+    (h : rtOf s (f + 1) om ty cur v = some q) : RCase s f om ty cur v q := by
   rw [rtOf_succ] at h
   by_cases hom : (om && isEmptyValue (kindOf s 8 ty) v) = true
   · simp only [hom, if_true] at h
@@ -126,7 +140,7 @@ theorem rtOf_inv (s : Schema) (f : Nat) (om : Bool) (ty : LtType) (v q : V)
       rw [hk] at h
       all_goals (
         have hnp : ∀ t', kindOf s 8 ty ≠ .ptr t' := by intro t' e; rw [hk] at e; cases e
-        have h' : rtRest s (rtOf s f) om ty (kindOf s 8 ty) v = some q := by rw [hk]; simpa using h
-        exact rtRest_inv s f om ty v q hom' hnp h')
+        have h' : rtRest s (rtOf s f) om ty (kindOf s 8 ty) cur v = some q := by rw [hk]; simpa using h
+        exact rtRest_inv s f om ty cur v q hom' hnp h')
 
 end TrackVerif.LT
